@@ -11,6 +11,8 @@ pub mod starter;
 pub mod user;
 pub mod utils;
 pub mod web_config;
+#[cfg(rnacos_verif)]
+pub mod verif_hook;
 
 pub mod health;
 pub mod transfer;
